@@ -9,6 +9,7 @@ class Interval:
     def __or__(self,o): return Interval(self.parts+o.parts)
     def __eq__(self,o): return self.parts==o.parts
     def __hash__(self): return hash(self.parts)
+    def __contains__(self, x): return any(lo <= x < hi for (lo, hi) in self.parts)
     def __repr__(self): return ' | '.join('[%d,%d)'%p for p in self.parts) or '()'
     def __iter__(self):
         for p in self.parts:
@@ -20,8 +21,10 @@ class Interval:
 def closedopen(a,b): return Interval([(a,b)])
 def empty(): return Interval()
 class AbstractDiscreteInterval(Interval): pass
-def create_api(cls): 
-    import types; return types.SimpleNamespace(empty=empty)
+def create_api(cls):
+    # integer-discrete API: closed(a,b) covers a..b inclusive
+    import types
+    return types.SimpleNamespace(empty=empty, singleton=lambda x: Interval([(x, x + 1)]), closed=lambda a, b: Interval([(a, b + 1)]))
 def iterate(iv,step=1):
     for lo,hi in iv.parts:
         yield from range(lo,hi,step)
